@@ -13,7 +13,10 @@ use std::rc::Rc;
 
 #[derive(Debug)]
 struct Inner<T> {
-    queue: Vec<(T, usize)>,
+    /// messages ever queued; the live queue is `store[head..]` (popping the front only advances
+    /// `head`: `Vec::remove(0)` is a memmove whose length CBMC cannot keep constant)
+    store: Vec<(T, usize)>,
+    head: usize,
     capacity: usize,
     receiver_count: usize,
     inactive_receiver_count: usize,
@@ -25,6 +28,9 @@ struct Inner<T> {
 }
 
 impl<T> Inner<T> {
+    fn qlen(&self) -> usize {
+        self.store.len() - self.head
+    }
     fn close_channel(&mut self) {
         if self.receiver_count == 0 && self.inactive_receiver_count == 0 {
             self.is_closed = true;
@@ -35,7 +41,8 @@ impl<T> Inner<T> {
 pub fn broadcast<T>(cap: usize) -> (Sender<T>, Receiver<T>) {
     assert!(cap > 0, "capacity cannot be zero");
     let inner = Rc::new(RefCell::new(Inner {
-        queue: Vec::new(),
+        store: Vec::new(),
+        head: 0,
         capacity: cap,
         receiver_count: 1,
         inactive_receiver_count: 0,
@@ -66,10 +73,10 @@ impl<T> Sender<T> {
         self.inner.borrow_mut().await_active = await_active;
     }
     pub fn is_empty(&self) -> bool {
-        self.inner.borrow().queue.is_empty()
+        self.inner.borrow().qlen() == 0
     }
     pub fn len(&self) -> usize {
-        self.inner.borrow().queue.len()
+        self.inner.borrow().qlen()
     }
     pub fn receiver_count(&self) -> usize {
         self.inner.borrow().receiver_count
@@ -80,7 +87,7 @@ impl<T> Sender<T> {
     pub fn new_receiver(&self) -> Receiver<T> {
         let mut inner = self.inner.borrow_mut();
         inner.receiver_count += 1;
-        let pos = inner.head_pos + inner.queue.len() as u64;
+        let pos = inner.head_pos + inner.qlen() as u64;
         Receiver { inner: self.inner.clone(), pos }
     }
 }
@@ -94,15 +101,17 @@ impl<T: Clone> Sender<T> {
         } else if inner.receiver_count == 0 {
             assert!(inner.inactive_receiver_count != 0);
             return Err(TrySendError::Inactive(msg));
-        } else if inner.queue.len() == inner.capacity {
+        } else if inner.qlen() == inner.capacity {
             if inner.overflow {
-                ret = Some(inner.queue.remove(0).0);
+                let h = inner.head;
+                ret = Some(inner.store[h].0.clone());
+                inner.head = h + 1;
             } else {
                 return Err(TrySendError::Full(msg));
             }
         }
         let receiver_count = inner.receiver_count;
-        inner.queue.push((msg, receiver_count));
+        inner.store.push((msg, receiver_count));
         if ret.is_some() {
             inner.head_pos += 1;
         }
@@ -137,10 +146,10 @@ unsafe impl<T: Send> Sync for Receiver<T> {}
 
 impl<T> Receiver<T> {
     pub fn is_empty(&self) -> bool {
-        self.inner.borrow().queue.is_empty()
+        self.inner.borrow().qlen() == 0
     }
     pub fn len(&self) -> usize {
-        self.inner.borrow().queue.len()
+        self.inner.borrow().qlen()
     }
     pub fn set_overflow(&mut self, overflow: bool) {
         self.inner.borrow_mut().overflow = overflow;
@@ -166,19 +175,19 @@ impl<T: Clone> Receiver<T> {
                 return Err(TryRecvError::Overflowed(count));
             }
         };
-        if i >= inner.queue.len() {
+        if i >= inner.qlen() {
             return if inner.is_closed { Err(TryRecvError::Closed) } else { Err(TryRecvError::Empty) };
         }
         self.pos += 1;
-        inner.queue[i].1 -= 1;
-        if inner.queue[i].1 == 0 {
+        let k = inner.head + i;
+        inner.store[k].1 -= 1;
+        let elt = inner.store[k].0.clone();
+        if inner.store[k].1 == 0 {
             assert_eq!(i, 0);
-            let elt = inner.queue.remove(0).0;
+            inner.head += 1;
             inner.head_pos += 1;
-            Ok(elt)
-        } else {
-            Ok(inner.queue[i].0.clone())
         }
+        Ok(elt)
     }
 }
 
@@ -191,12 +200,13 @@ impl<T> Drop for Receiver<T> {
             None => 0,
         };
         let mut i = start;
-        while i < inner.queue.len() {
-            inner.queue[i].1 -= 1;
+        while i < inner.qlen() {
+            let k = inner.head + i;
+            inner.store[k].1 -= 1;
             i += 1;
         }
-        while !inner.queue.is_empty() && inner.queue[0].1 == 0 {
-            inner.queue.remove(0);
+        while inner.qlen() > 0 && inner.store[inner.head].1 == 0 {
+            inner.head += 1;
             inner.head_pos += 1;
         }
         inner.receiver_count -= 1;
